@@ -186,6 +186,10 @@ structure PSt (V : Type) where
   completed : Bool := false
   /-- `observer.on_error(e)` was called (the first one) -/
   failed : Option Err := none
+  /-- the lists `queue`, `has_next`, `is_done` of the plain `tee_map` join (`_process_many.subscribe`), mutated in place -/
+  jq : List V := []
+  jh : List Bool := []
+  jd : List Bool := []
 
 /-- an exception escaping `on_next` / `on_completed` is RxPY's business (it ends the subscription with `on_error`): here it is
 the `Except` result, with the effects performed before it kept -/
@@ -199,6 +203,20 @@ def setVar (k : Nat) (v : V) : PM V Unit :=
 def emit (v : V) : PM V Unit := modify fun s => { s with out := s.out ++ [v] }
 def complete : PM V Unit := modify fun s => { s with completed := true }
 def fail (e : Err) : PM V Unit := modify fun s => { s with failed := s.failed <|> some e }
+/-- `queue[i] = v` / `has_next[i] = b` / `is_done[i] = b` (IndexError past the end) -/
+def queueSet (i : Nat) (v : V) : PM V Unit := do
+  let s ← get
+  if i < s.jq.length then set { s with jq := s.jq.set i v } else throw "IndexError"
+def hasSet (i : Nat) (b : Bool) : PM V Unit := do
+  let s ← get
+  if i < s.jh.length then set { s with jh := s.jh.set i b } else throw "IndexError"
+def doneSet (i : Nat) (b : Bool) : PM V Unit := do
+  let s ← get
+  if i < s.jd.length then set { s with jd := s.jd.set i b } else throw "IndexError"
+/-- the lists read as a whole (`all(has_next)`, `tuple(queue)`, `all(is_done)`) -/
+def queueAll : PM V (List V) := do return (← get).jq
+def hasAll : PM V (List Bool) := do return (← get).jh
+def doneAll : PM V (List Bool) := do return (← get).jd
 /-- run from given variable values and an empty output -/
 def run (m : PM V Unit) (vars : Nat → V) : Except Err Unit × PSt V := (ExceptT.run m).run { vars := vars }
 /-- the variable valuation `on_subscribe` starts from -/
